@@ -129,10 +129,11 @@ AUX_MODULE = "verif_aux_model"
 AUX_SOURCE = '''"""auxiliary mapped classes of the krrood verification harness (generated file)"""
 from __future__ import annotations
 
+import enum
 from dataclasses import dataclass, field
 from types import FunctionType
 
-from typing_extensions import List, Optional
+from typing_extensions import List, Optional, Type
 
 import verif_aux_geometry
 import verif_aux_storage
@@ -380,6 +381,77 @@ class AuxKit:
     main: Optional[AuxGadget] = None
 
 
+# scalar columns of every kind, each also Optional: None must stay None and a FALSY value (0, 0.0, "", False, the
+# enumeration member with value 0, an empty list) must stay itself -- `is None` tests, never truthiness tests
+class AuxMode(enum.IntEnum):
+    OFF = 0
+    ON = 1
+    AUTO = 2
+
+
+@dataclass
+class AuxSwitch:
+    label: str
+    enabled: bool
+    level: int
+    gain: float
+    mode: AuxMode
+    frame_type: Type[AuxFrame]
+    opt_label: Optional[str] = None
+    opt_enabled: Optional[bool] = None
+    opt_level: Optional[int] = None
+    opt_gain: Optional[float] = None
+    opt_mode: Optional[AuxMode] = None
+    notes: List[str] = field(default_factory=list)
+    # Optional scalars whose default is NOT None: an explicit None must survive (it must be passed to the constructor
+    # explicitly, and the generated column must not complete it)
+    retries: Optional[int] = 3
+    trim: Optional[float] = 1.0
+    note: Optional[str] = "n/a"
+    armed: Optional[bool] = True
+    fallback_mode: Optional[AuxMode] = AuxMode.ON
+
+
+@dataclass
+class AuxPanel:
+    switches: List[AuxSwitch] = field(default_factory=list)
+    master: Optional[AuxSwitch] = None
+
+
+# several alternatively mapped objects on ONE reference cycle, and a plain holder that references them through one
+# collection: all of them can be in progress when the collection is parsed
+@dataclass
+class AuxClub:
+    name: str
+    link: Optional[AuxLink] = None
+
+
+@dataclass
+class AuxClubMapping(AlternativeMapping[AuxClub]):
+    name: str
+    link: Optional[AuxLink]
+
+    @classmethod
+    def create_instance(cls, obj: AuxClub):
+        return cls(obj.name, obj.link)
+
+    def create_from_dao(self) -> AuxClub:
+        return AuxClub(self.name, self.link)
+
+
+@dataclass
+class AuxLink:
+    label: str
+    club: Optional[AuxClub] = None
+    registry: Optional[AuxRegistry] = None
+
+
+@dataclass
+class AuxRegistry:
+    clubs: List[AuxClub] = field(default_factory=list)
+    chair: Optional[AuxClub] = None
+
+
 # JSON columns whose value classes have the same simple name in two modules
 @dataclass
 class AuxShelf:
@@ -428,7 +500,8 @@ class Box(SubclassJSONSerializer):
 AUX_CLASSES = ["AuxPoint", "AuxPolyline", "AuxDrawing", "AuxWaypoint", "AuxTrajectory", "AuxMission", "AuxSchedule",
                "AuxFrame", "AuxTag", "AuxSensor", "AuxCamera", "AuxRig", "AuxJob", "AuxPipeline",
                "AuxDevice", "AuxScanner", "AuxTurboScanner", "AuxWorkbench",  # NOT AuxCalibrated, AuxTuned
-               "AuxStereoCamera", "AuxGadget", "AuxLensCam", "AuxStereoCam", "AuxKit", "AuxShelf"]
+               "AuxStereoCamera", "AuxGadget", "AuxLensCam", "AuxStereoCam", "AuxKit", "AuxShelf", "AuxSwitch", "AuxPanel",
+               "AuxClub", "AuxLink", "AuxRegistry"]
 FUNCTION_POOL = ["run", "AuxLoader.run", "AuxSaver.run", "step", "AuxLoader.step", "AuxSaver.step", "aux_unique"]
 SCHEMA.update({
     "AuxPolyline": dict(scal=[("name", "s"), ("coordinates", "lf2")], refs=[], chain=["AuxPolylineMappingDAO"],
@@ -505,6 +578,23 @@ SCHEMA.update({
     # JSON columns with same-named value classes from two modules
     "AuxShelf": dict(scal=[("name", "s"), ("outline", "xg"), ("lid", "xs"), ("bins", "lxs"), ("plates", "lxg")], refs=[],
                      chain=["AuxShelfDAO"]),
+    # every scalar column kind, plain and Optional (None / falsy / truthy values)
+    "AuxSwitch": dict(scal=[("label", "s"), ("enabled", "b"), ("level", "i"), ("gain", "f"), ("mode", "xenum"),
+                            ("frame_type", "xtype"), ("opt_label", "os"), ("opt_enabled", "ob"), ("opt_level", "oi"),
+                            ("opt_gain", "of"), ("opt_mode", "oxenum"), ("notes", "ls0"), ("retries", "oi"), ("trim", "of"),
+                            ("note", "os"), ("armed", "ob"), ("fallback_mode", "oxenum")],
+                      refs=[], chain=["AuxSwitchDAO"]),
+    "AuxPanel": dict(scal=[], refs=[R("switches", "many", "AuxSwitch", False, "AuxPanelDAO", lens=[1, 2, 2, 3]),
+                                    R("master", "one", "AuxSwitch", True, "AuxPanelDAO")],
+                     chain=["AuxPanelDAO"]),
+    "AuxClub": dict(scal=[("name", "s")], refs=[R("link", "one", "AuxLink", True, "AuxClubMappingDAO")],
+                    chain=["AuxClubMappingDAO"], kind="alt", mapping="AuxClubMapping"),
+    "AuxLink": dict(scal=[("label", "s")], refs=[R("club", "one", "AuxClub", True, "AuxLinkDAO"),
+                                                 R("registry", "one", "AuxRegistry", True, "AuxLinkDAO")],
+                    chain=["AuxLinkDAO"]),
+    "AuxRegistry": dict(scal=[], refs=[R("clubs", "many", "AuxClub", False, "AuxRegistryDAO", lens=[2, 2, 3, 3, 4]),
+                                       R("chair", "one", "AuxClub", True, "AuxRegistryDAO")],
+                        chain=["AuxRegistryDAO"]),
     "AuxWorkbench": dict(scal=[("label", "s")],
                          refs=[R("devices", "many", "AuxDevice", False, "AuxWorkbenchDAO", lens=[1, 2, 3, 4]),
                                R("primary", "one", "AuxDevice", True, "AuxWorkbenchDAO")],
@@ -529,6 +619,7 @@ MAPPING_SCHEMA: Dict[str, Dict[str, Any]] = {
     "TransformationMapped": dict(scal=[], refs=[R("vector", "one", "Vector", False, ""), R("rotation", "one", "Rotation", True, "")]),
     "VectorsWithPropertyMapped": dict(scal=[], refs=[R("vectors", "many", "Vector", False, "")]),
     "AuxGadgetMapping": dict(scal=[("name", "s")], refs=[]),
+    "AuxClubMapping": dict(scal=[("name", "s")], refs=[R("link", "one", "AuxLink", True, "")]),
     "FunctionMapping": dict(scal=[("module_name", "s"), ("function_name", "s"), ("class_name", "s")], refs=[]),
     "AuxSensorMapping": dict(scal=[("identifier", "s")], refs=[R("mounting_frame", "one", "AuxFrame", False, ""),
                                                                R("labels", "many", "AuxTag", False, "")]),
@@ -572,7 +663,7 @@ def view_scalars(cls: str, scal: Dict[str, Any]) -> Dict[str, Any]:
         return {"identifier": scal["name"], "resolution": scal["resolution"]}
     if cls == "AuxStereoCamera":
         return {"identifier": scal["name"], "resolution": scal["resolution"], "baseline": scal["baseline"]}
-    if cls in ("AuxGadget", "AuxLensCam"):
+    if cls in ("AuxGadget", "AuxLensCam", "AuxClub"):
         return {"name": scal["name"]}
     if cls == "AuxStereoCam":
         return {"name": scal["name"], "baseline": scal["baseline"]}
@@ -597,6 +688,7 @@ _STRS = ["", "a", "b", "Ab9", "torso_1"]
 _FLOATS = [0.0, 1.0, -2.5, 3.25, 1e10, 0.1]
 _INTS = [0, 1, -3, 7, 123456789]
 _TYPES = ["Position", "Position4D", "Orientation", "Pose"]
+_AUX_TYPES = ["AuxFrame", "AuxTag", "AuxWaypoint"]
 
 
 def enc(v: Any) -> str:
@@ -717,7 +809,7 @@ def _dec(s: str, ex):
         return body, rest
     if c == "e":
         cn, mn = body.split(".")
-        return getattr(ex, cn)[mn], rest
+        return (getattr(ex, cn, None) or getattr(sys.modules[AUX_MODULE], cn))[mn], rest
     if c == "u":
         return _uuid.UUID(hex=body), rest
     if c == "F":  # a function of the auxiliary module, by qualified name
@@ -726,7 +818,7 @@ def _dec(s: str, ex):
             target = getattr(target, part)
         return target, rest
     if c == "T" or c == "P":
-        cls = getattr(ex, body)
+        cls = getattr(ex, body, None) or getattr(sys.modules[AUX_MODULE], body)
         return (cls if c == "T" else cls()), rest
     raise ValueError(f"cannot decode scalar {s!r}")
 
@@ -742,6 +834,24 @@ def gen_scalar(rng, kind: str):
         return rng.choice(_INTS)
     if kind == "s":
         return rng.choice(_STRS)
+    if kind == "b":
+        return rng.choice([False, True])
+    if kind == "ob":
+        return rng.choice([None, False, False, True])
+    if kind == "oi":
+        return rng.choice([None, 0, 0] + _INTS)
+    if kind == "os":
+        return rng.choice([None, "", ""] + _STRS)
+    if kind == "xenum":
+        return ("xenum", rng.choice(["OFF", "OFF", "ON", "AUTO"]))
+    if kind == "oxenum":
+        return rng.choice([None, ("xenum", "OFF"), ("xenum", "OFF"), ("xenum", "ON"), ("xenum", "AUTO")])
+    if kind == "xtype":
+        return ("type", rng.choice(_AUX_TYPES))
+    if kind == "oxtype":
+        return rng.choice([None, None] + [("type", t) for t in _AUX_TYPES])
+    if kind == "ls0":  # a list of strings that may hold the empty string
+        return [rng.choice(_STRS) for _ in range(rng.choice([0, 0, 1, 2, 3]))]
     if kind == "ls":
         return [rng.choice(_STRS[1:]) for _ in range(rng.choice([0, 0, 1, 2, 3]))]
     if kind == "li":
@@ -789,6 +899,8 @@ def enc_gen(v: Any) -> str:
     if isinstance(v, tuple):
         if v[0] == "enum":
             return f"eElement.{v[1]}"
+        if v[0] == "xenum":
+            return f"eAuxMode.{v[1]}"
         if v[0] == "json":
             return f"J{enc(v[1])}/{enc(v[2])}"
         if v[0] == "type":
@@ -979,6 +1091,7 @@ ROOT_WEIGHTS = [
     ("AuxRig", 6), ("AuxCamera", 3), ("AuxSensor", 1),
     ("AuxPipeline", 6), ("AuxJob", 2), ("AuxWorkbench", 6), ("AuxScanner", 1), ("AuxTurboScanner", 1),
     ("AuxKit", 6), ("AuxStereoCam", 2), ("AuxLensCam", 1), ("AuxShelf", 4), ("AuxStereoCamera", 1),
+    ("AuxPanel", 8), ("AuxClub", 5), ("AuxRegistry", 2), ("AuxLink", 2),
 ]
 
 
@@ -1068,6 +1181,44 @@ def gen_heap(rng, max_nodes: int = 12, p_reuse: float = 0.45, p_none: float = 0.
             if isinstance(r, list) and len(set(r)) < len(r) and rng.random() >= p_dup:
                 n["refs"][k] = list(dict.fromkeys(r))  # this list holds every object once
     _repair_invariants(rng, nodes)
+    return {"nodes": nodes, "roots": [0], "via": 0}
+
+
+def gen_alt_ring(rng) -> Dict[str, Any]:
+    """k alternatively mapped objects chained through plain link objects (club_0 -> link_0 -> club_1 -> ... ), one or
+    two plain holders hanging off some links that reference SEVERAL of the clubs through one collection (any subset of
+    size >= 2 in any order, sometimes a duplicate or a club outside the chain) and optionally one of them through a
+    single-valued field; the chain may close into a ring. Every node is later tried as entry point, so the clubs of a
+    collection are finished / in progress in every combination when the collection is parsed."""
+    k = rng.choice([2, 2, 3, 3, 4])
+    nodes: List[Dict[str, Any]] = []
+
+    def mk(cls):
+        nodes.append(_mk_node(rng, cls))
+        return len(nodes) - 1
+
+    clubs = [mk("AuxClub") for _ in range(k)]
+    links = [mk("AuxLink") for _ in range(k)]
+    for i in range(k):
+        nodes[clubs[i]]["refs"][0] = links[i]
+        if i + 1 < k:
+            nodes[links[i]]["refs"][0] = clubs[i + 1]
+    if rng.random() < 0.4:
+        nodes[links[-1]]["refs"][0] = clubs[rng.randrange(k)]  # close the ring somewhere
+    holders = [mk("AuxRegistry") for _ in range(rng.choice([1, 1, 2]))]
+    for hld in holders:
+        pool = list(clubs)
+        if rng.random() < 0.3:
+            pool.append(mk("AuxClub"))  # a club outside the chain
+        members = rng.sample(pool, rng.randint(2, len(pool)))
+        rng.shuffle(members)
+        if rng.random() < 0.2:
+            members.append(rng.choice(members))
+        nodes[hld]["refs"][0] = members
+        if rng.random() < 0.4:
+            nodes[hld]["refs"][1] = rng.choice(pool)
+        at = rng.choice([links[-1], links[-1], rng.choice(links)])
+        nodes[at]["refs"][1] = hld
     return {"nodes": nodes, "roots": [0], "via": 0}
 
 
